@@ -52,7 +52,25 @@ func lcpLen(ws []string) int {
 	return l
 }
 
+// c20One runs one insertion sequence and its queries; a Go panic inside the trie or the completion callback is a failing
+// input of its own (the harness survives it).
 func c20One(c *Ctx, words [][]byte, queries [][]byte) {
+	defer func() {
+		if r := recover(); r != nil {
+			var wp, qp []string
+			for _, w := range words {
+				wp = append(wp, Hx(w))
+			}
+			for _, q := range queries {
+				qp = append(qp, Hx(q))
+			}
+			c.Fail("trie-panic", "TRIE "+strings.Join(wp, ",")+" Q:"+strings.Join(qp, ","), fmt.Sprint(r))
+		}
+	}()
+	c20OneInner(c, words, queries)
+}
+
+func c20OneInner(c *Ctx, words [][]byte, queries [][]byte) {
 	t := trie.NewTrie()
 	ac := repl.NewCompletion()
 	set := map[string]bool{}
